@@ -127,7 +127,28 @@ def run(ck, prog, tier, load):
     for bb, t in sr:
         fl = hr.op_expr(t["args"][2])
         srcs = deep_conds(hr, fl)
-        ok = any(e_calls(x, r"BodySize::is_eof$") for x in srcs) and any(any(isinstance(p, str) and p.endswith("head_req") for p in y[2]) for x in srcs for y in walk(x) if y[0] == "place")
+        # the HEAD flag: a captured bool parameter of handle_response into which the dispatcher passes `method == HEAD`
+        head_pos = set()
+        for b_, bb_, t_ in prog.callers(r"^actix_http::h2::dispatcher::handle_response$"):
+            for i_, a_ in enumerate(t_["args"]):
+                ea = b_.op_expr(a_, 6)
+                for y in walk(ea):
+                    if y[0] == "place":
+                        for p_ in y[2]:
+                            up = prog.upvar(b_, p_) if isinstance(p_, str) and p_.startswith(".^") else None
+                            if up and e_has_const(up[1], r"Method::HEAD$|method::Method::HEAD$"):
+                                head_pos.add(i_ + 1)
+                if e_has_const(ea, r"Method::HEAD$"):
+                    head_pos.add(i_ + 1)
+        uses_head = False
+        for x in srcs:
+            for y in walk(x):
+                if y[0] == "place":
+                    for p_ in y[2]:
+                        up = prog.upvar(hr, p_) if isinstance(p_, str) and p_.startswith(".^") else None
+                        if up and up[1][0] == "arg" and up[1][1] in head_pos:
+                            uses_head = True
+        ok = any(e_calls(x, r"BodySize::is_eof$") for x in srcs) and uses_head
         ck.ob("C08-c.head-carries-end-flag", "handle_response", ok, hr, bb, "send_response's end-of-stream flag derives from size.is_eof() and from the HEAD flag")
     # the size consulted for the end flag is the one prepare_response adjusted for the status (204/1xx -> None)
     prep = [bb for bb, t in hr.calls(r"h2::dispatcher::prepare_response$")]
@@ -215,9 +236,24 @@ def run(ck, prog, tier, load):
             return not label_may_be(lab, "Standard")
         return False
 
+    # SK = the bool local(s) tested inside the Content-Length arm of the header-copy loop (the "skip user length" flag)
+    SK = set()
+    for a in pr.live:
+        br = pr.branch(a)
+        if br and br[0][0] == "discr" and (br[0][2] or "").endswith("StandardHeader"):
+            for lab, tb in br[1]:
+                if isinstance(lab, str) and lab == "ContentLength":
+                    for x in pr.reach([tb]):
+                        bx = pr.branch(x)
+                        if bx and pr.dominates(tb, x):
+                            c2 = strip_not(bx[0], True)[0]
+                            if c2[0] in ("var", "phi") and pr.lty(c2[1]) == "bool":
+                                SK.add(c2[1])
+    ck.anchor("C08-d", len(SK), 1, "bool local tested in the Content-Length arm of prepare_response's header copy")
+
     def skip_len_false(c, lab):
         c2, tr = strip_not(c, True)
-        return isinstance(lab, bool) and is_local_named(c2, "skip_len") and (lab if tr else not lab) is False
+        return isinstance(lab, bool) and is_local(c2, SK) and (lab if tr else not lab) is False
     ck.ob("C08-d.user-length-skipped", "content-length", loop_skips(pr, appends, not_cl, [skip_len_false]), pr, appends[0], "assuming the header is content-length and skip_len is set, headers.append is unreachable within the iteration")
 
     # ---- (e) request side releases capacity --------------------------------------------------------
